@@ -1,0 +1,12 @@
+//go:build verif
+
+package pkcs12
+
+import (
+	"crypto/cipher"
+
+	"golang.org/x/crypto/pkcs12/internal/rc2"
+)
+
+// VerifRC2New re-exports pkcs12/internal/rc2.New (the harness cannot import internal/).
+func VerifRC2New(key []byte, t1 int) (cipher.Block, error) { return rc2.New(key, t1) }
